@@ -316,12 +316,17 @@ def check_table(ctx, pm):
             for suf in UNKNOWN_SUFFIXES:
                 for respin in (None, 2):
                     cid = prefix + date + suf + ("" if respin is None else ".%d" % respin)
-                    try:
-                        got = pm["decode"](cid)
-                        rejected = got is None or all(x is None for x in got)
-                        got = list(got) if got is not None else None
-                    except Exception as e:
-                        rejected, got = True, "raised %s" % type(e).__name__
+                    rejected, got = True, None
+                    for attempt in (1, 2):       # a refused id stays refused when it is decoded again
+                        try:
+                            g = pm["decode"](cid)
+                            r = g is None or all(x is None for x in g)
+                            g = list(g) if g is not None else None
+                        except Exception as e:
+                            r, g = True, "raised %s" % type(e).__name__
+                        if not r:
+                            rejected, got = False, {"attempt": attempt, "returned": g}
+                            break
                     ctx.monitor("unknown-suffix", fired=not rejected)
                     n += 1
                     if not rejected:
